@@ -212,10 +212,11 @@ def gen_species(rng, tier, focus):
     tcuts = sorted(rng.sample(range(1, m), n_res - 1)) if n_res > 1 else []
     r = 0
     t_resnames, t_resids = [], []
+    same_name = n_res > 1 and rng.random() < 0.35       # neighbouring residues of ONE kind (ARG ARG, a polymer)
     for i in range(m):
         if r < len(tcuts) and i == tcuts[r]:
             r += 1
-        t_resnames.append("TG" + chr(65 + r))
+        t_resnames.append("TGX" if same_name else "TG" + chr(65 + r))
         t_resids.append(50 + r)
     tgt = {"name": "SPEC", "atom_names": tnames, "resnames": t_resnames, "resids": t_resids,
            "edges": [list(e) for e in tedges], "positions": tpos}
@@ -373,7 +374,9 @@ def gen_ops(rng, tier, focus, ref, tgt, info, n_res):
         elif k == "other":
             new = deformation(rng, ref_g, amp=0.0)
             op = {"op": "call", "conf": "other_instance", "positions": new or ref["positions"],
-                  "gro_resids": [rng.choice([1, 17, 4242]) + r for r in range(n_res)],
+                  # residue numbers of the argument: consecutive, or one number on every residue
+                  "gro_resids": ([rng.choice([1, 17, 4242]) + r for r in range(n_res)] if rng.random() < 0.7
+                                 else [rng.choice([7, 1, 300])] * n_res),
                   "velocities": rng.random() < 0.3}
             op.update(rigid(rng))
             ops.append(op)
